@@ -28,6 +28,8 @@ def run_disk(lcfg, func, a):
     return h.scenario(fsm.DiskFS, [-1] + ([a['c2']] if a['c2'] >= 0 else []), 1, a['net_fail'])
   if func == 'cache2':
     return h.scenario(fsm.DiskFS, [a['c1'], a['c2']], 1, -1)
+  if func == 'empty_body':
+    return h.scenario_empty_body(fsm.DiskFS, [a['c1']] if a['c1'] >= 0 else [])
   if func == 'cifar1':
     return h.scenario_cifar(fsm.DiskFS, [a['c1']], a['cut'])
   return h.scenario_cifar(fsm.DiskFS, [a['c1'], a['c2']], 1)
@@ -47,7 +49,7 @@ def classify(msg):
   return 'other'
 
 
-NAMES = {'cache1': ['c1', 'cut'], 'cache_net': ['net_fail', 'c2'], 'cache2': ['c1', 'c2'], 'cifar1': ['c1', 'cut'], 'cifar2': ['c1', 'c2']}
+NAMES = {'cache1': ['c1', 'cut'], 'cache_net': ['net_fail', 'c2'], 'cache2': ['c1', 'c2'], 'cifar1': ['c1', 'cut'], 'cifar2': ['c1', 'c2'], 'empty_body': ['c1']}
 
 
 def check(run):
@@ -66,7 +68,7 @@ def check(run):
     for func in ('cache1', 'cache_net', 'cache2'):
       jobs.append((HARNESS, func, timeout, {'C19_LEN': str(L)}))
       meta.append((L, func))
-  for func in ('cifar1', 'cifar2'):
+  for func in ('cifar1', 'cifar2', 'empty_body'):
     jobs.append((HARNESS, func, timeout, {'C19_LEN': '1'}))
     meta.append((1, func))
   jobs.append((HARNESS, 'cache_reach', timeout, {'C19_LEN': '1'}))
